@@ -211,7 +211,7 @@ pub fn check_records(ctx: &mut Ctx, c: &Records) -> Result<(), String> {
 }
 
 pub fn run(ctx: &mut Ctx) {
-    ctx.rule = "interleaved histories (up to 12 operations) of registrations and authentications over 2-4 (origin, RP ID) sites and several users, pre-loaded credentials, allow lists (absent, empty, known ids, unknown ids, ids of another RP, unknown descriptor types), challenges, client-data modes and UV requirements; multi-RP histories on the reference store (sites include names below 'localhost'; some pre-loaded credentials are held for mixed-case RP IDs that only a CTAP2-level caller can name), single-RP histories also on MemoryStore and the single-slot Option store; about one operation in eleven is an assertion made directly at the CTAP2 level — with and without the up / uv options, the validation step reporting exactly what was asked — and judged the same way (rpIdHash, signature, user handle). Non-trivial = an authentication that reached the authenticator (success or credential-not-found); distinct by (store, preload, position, request).".into();
+    ctx.rule = "interleaved histories (up to 12 operations) of registrations and authentications over 2-4 (origin, RP ID) sites and several users, pre-loaded credentials, allow lists (absent, empty, known ids, unknown ids, ids of another RP, unknown descriptor types), challenges, client-data modes and UV requirements; multi-RP histories on the reference store (sites include names below 'localhost'; some pre-loaded credentials are held for mixed-case RP IDs that only a CTAP2-level caller can name), single-RP histories also on MemoryStore and the single-slot Option store; about one operation in eleven is an assertion made directly at the CTAP2 level — with and without the up / uv options, the validation step reporting exactly what was asked — and judged the same way (rpIdHash, signature, user handle). Since rounds 7/8: a 'records' stage (1 500 sequences on two or three pre-loaded records: replaced from outside with another key pair, private scalars shorter than 32 bytes, a record with an unusable key asserted on first, requests from another RP's site naming a held credential — judged for binding, not eligibility). Non-trivial = an authentication that reached the authenticator (success or credential-not-found); distinct by (store, preload, position, request).".into();
     ctx.assumptions = vec![
         "the user always consents (presence and verification reported); consent failures are C04".into(),
         "eligible = credentials registered for the effective RP ID and, for a non-empty allow list, named in it (by id, regardless of descriptor type)".into(),
